@@ -55,6 +55,7 @@ def run(ctx, rep):
     rep.rule("R02.6", "buffered iteration yields every fetched element in order and stops only on an empty chunk")
     rep.rule("R02.8", "generated proxy classes are reused only for the exact class they were generated for (cache keyed by the "
                       "whole id of a class object, never by name alone)")
+    rep.rule("R02.10", "forwarding special methods have no local short-cut: every path sends exactly one request and returns its reply")
     rep.rule("R02.7", "attribute get/set/del on a proxy: local names stay local, everything else goes to the matching handler with (name[, value])")
     rep.assume("result/exception equality of operations and target state after failed operations are not decided")
     table, rows = c06.handler_table(ctx)
@@ -350,3 +351,39 @@ def run(ctx, rep):
     rep.ob("R02.8", "_netref_factory: a fresh proxy class is generated from the inspection of this very object", oki and okcf,
            "sync_request(HANDLE_INSPECT, id_pack) -> class_factory(id_pack, methods)" if oki and okcf else
            "the proxy class is not generated from the inspection of the received id", fnf.loc)
+
+    # ------------------------------------------------------------------ R02.10
+    fwd = CMP_OPS + ["__hash__", "__repr__", "__str__", "__dir__", "__exit__"]
+    n10 = 0
+    for meth in fwd:
+        f = bn.methods.get(meth)
+        if f is None:
+            continue
+        gm = ctx.cfg(f)
+        rep.analysed(f, gm)
+        reqn = [n for n in gm.live if n.ast is not None and n.kind in ("stmt", "test") and any(
+            (A.call_name(c) or "").split(".")[-1] in ("syncreq", "asyncreq") for c in A.calls(n.ast))]
+        ids = {n.id for n in reqn}
+        cnt = Q.count_on_paths(gm, gm.entry, lambda n: n.id in ids)
+        at = cnt.get(gm.exit.id, frozenset())
+        rets = [n for n in gm.live if n.kind == "stmt" and isinstance(n.ast, ast.Return)]
+        rdm = Q.ReachingDefs(gm)
+
+        def from_request(n):
+            v = n.ast.value
+            if v is None:
+                return False
+            if any((A.call_name(c) or "").split(".")[-1] in ("syncreq",) for c in A.calls(v)):
+                return True
+            if isinstance(v, ast.Name):
+                defs = rdm.at(n, v.id)
+                return bool(defs) and all(d != "param" and d.id in ids for d in defs)
+            return False
+        ok = at == frozenset([1]) and bool(rets) and all(from_request(r) for r in rets)
+        n10 += 1
+        rep.ob("R02.10", "BaseNetref.%s: every path asks the owner and returns its answer" % meth, ok,
+               "exactly one request on every path; every return is (derived from) its reply" if ok else
+               "BaseNetref.%s has a path that answers locally (requests on a path: %s): the result can differ from what the "
+               "target's own %s would return (e.g. an identity short-cut for `x == x` with a non-reflexive __eq__)"
+               % (meth, sorted(at), meth), f.loc)
+    rep.floor("R02.10", "forwarding special methods", n10, 10)
